@@ -39,8 +39,10 @@ ASSUMPTIONS = [
 PROBES = ["negative-unsorted-index-on-bonded", "two-dimensional-index", "negative-int-in-atom-axis-of-stack", "model-deletion-with-box",
           "copy-then-inplace-write", "alias-group-resync", "rejected-op", "empty-container", "duplicate-index-array", "eq-checked"]
 
-STR_CATS = {"chain_id": ["A", "B", "C"], "ins_code": ["", "A"], "res_name": ["ALA", "GLY", "HOH"], "atom_name": ["CA", "N", "O", "CB"],
-            "element": ["C", "N", "O"], "lbl": ["xxx", "yyy", "zzz"]}
+# values of different lengths up to the full width of each default dtype (U4, U1, U5, U6, U2): an annotation must keep
+# a dtype that can hold them whatever narrower arrays were assigned in between
+STR_CATS = {"chain_id": ["A", "B", "C", "WXYZ"], "ins_code": ["", "A"], "res_name": ["ALA", "GLY", "HOH", "ABCDE"],
+            "atom_name": ["CA", "N", "O", "CB", "HG1234"], "element": ["C", "N", "O", "CL"], "lbl": ["xxx", "yyy", "zzz"]}
 EXTRA = {"uid": "int", "q": "float", "flag": "bool", "lbl": "str"}
 MANDATORY = ["chain_id", "res_id", "ins_code", "res_name", "hetero", "atom_name", "element"]
 
@@ -735,6 +737,18 @@ def np_annot(cat, values):
     return np.array(values, dtype={"int": int, "float": float, "bool": bool}[t])
 
 
+def natural_annot(cat, values, exists):
+    """Array as a user would pass it: for an EXISTING category numpy's natural dtype (possibly narrower than the
+    annotation's: '<U1' for one-letter chain ids, integers for a float annotation); set_annotation documents that it
+    keeps a dtype able to represent old and new values. New categories get the full-width dtype (assumption 1)."""
+    if not exists or len(values) == 0:
+        return np_annot(cat, values)
+    t = CAT_TYPES.get(cat, "int")
+    if t == "float" and all(float(v).is_integer() for v in values):
+        return np.array([int(v) for v in values])
+    return np.array(values)
+
+
 def build_bonds(n, bonds):
     from biotite.structure import BondList
 
@@ -970,9 +984,9 @@ class Sim:
                         dtype = {"int": int, "float": float, "bool": bool}[t]
                     obj.add_annotation(cat, dtype=dtype)
                 elif what == "set":
-                    obj.set_annotation(cat, np_annot(cat, op["values"]))
+                    obj.set_annotation(cat, natural_annot(cat, op["values"], cat in obj.get_annotation_categories()))
                 elif what == "attr":
-                    setattr(obj, cat, np_annot(cat, op["values"]))
+                    setattr(obj, cat, natural_annot(cat, op["values"], True))
                 else:
                     obj.del_annotation(cat)
                 return {}, None
